@@ -286,8 +286,17 @@ def _do_read(pf, read, exp, full, sel, starts, fr, pnames, labels, ctx):
         return None
     kw, loose = _kwargs(read, fr, pnames, pf)
     if op == "to_pandas":
+        given = list(kw["columns"]) if "columns" in kw else None
         got = pf.to_pandas(**kw)
         _cmp(got, _project(exp, read, fr, pnames), "to_pandas(%r)" % (kw,), loose, ctx)
+        if given is not None:
+            # callers reuse their column list: a second partial read with the same list object
+            # (index suppressed) must return exactly those columns
+            if kw["columns"] != given:
+                raise _Viol("columns_argument_mutated", "to_pandas changed the caller's columns list %r -> %r" % (given, kw["columns"]))
+            kw2 = dict(kw, index=False)
+            got2 = pf.to_pandas(**kw2)
+            _cmp(got2, _project(exp, dict(read, index=False), fr, pnames), "second to_pandas(%r) with the same list" % (kw2,), loose, ctx)
         return None
     if op == "iter":
         pieces = list(pf.iter_row_groups(**kw))
